@@ -1,5 +1,6 @@
 import GoatSpec.Proofs.Walk
 import GoatSpec.Proofs.Mono
+import GoatSpec.Proofs.FuncScope
 /-! # C09 — tracking points appear only where a change justifies them, once.
 
 The theorems are about the bookkeeping fold of `increment.go` (`runEvents`) for **every** event
@@ -281,6 +282,66 @@ theorem scope_sub_patch (env : Env) (evs : List Ev) (sS sP : MState)
   have := List.Nodup.length_le_of_subset iS.nodup (fun x hx => h.sub x hx)
   omega
 
+/-- **… nor from scope to func granularity** — the last link of the chain. This one is a counting
+    argument, not an inclusion (a func position is the start of the function, a scope position the
+    first changed statement of a block): for every event list, whenever both folds terminate
+    normally and the two scope structures of the environment are coherent on the active lines
+    (`cohOK`: a line inside a function lies in a track scope of that same function; the insert
+    position of a keyed line lies inside a function; two lines with the same insert position have
+    the same key — decidable, evaluated by the harness on every judged input, `judge:coh`), the
+    func run has no more positions than the scope run, the same single-line positions, and
+    `count` does not increase. -/
+theorem func_le_scope (env : Env) (evs : List Ev) (sF sS : MState)
+    (hF : runEvents (env.withGran .func) evs = .ok sF) (hS : runEvents (env.withGran .scope) evs = .ok sS)
+    (hc : cohOK env evs = true) :
+    sF.multi.length ≤ sS.multi.length ∧ sF.singles = sS.singles ∧ sF.count ≤ sS.count := by
+  obtain ⟨hcoh, hfresh⟩ := cohOK_spec env evs hc
+  have h := run_func_scope env (activeLines env evs) evs rfl hcoh hfresh evs (fun _ h => h) {} sF {} sS
+    (Inv.init _) (Inv.init _) hF hS (FSRel.init env _)
+  have iF := runEvents_inv _ evs sF hF
+  have iS := runEvents_inv _ evs sS hS
+  have h1 : sF.multi.length ≤ sS.visitedScopes.length :=
+    length_le_of_image (fun k => funcPos env (keyFunc env k)) sF.multi sS.visitedScopes iF.nodup h.funcs
+  have h2 := h.len
+  refine ⟨by omega, h.singles, ?_⟩
+  rw [iF.count, iS.count, h.singles]
+  omega
+
+/-- **the whole chain for one file**: for every abstract file and changed-line set on which the
+    tracker terminates normally at all four granularities (and the scope structures are coherent on
+    the active lines, for the last link), the number of tracking points satisfies
+    count(func) ≤ count(scope) ≤ count(patch) ≤ count(line). -/
+theorem marks_count_chain (f : File) (ranges : List (Nat × Nat)) (mL mP mS mF : Marks)
+    (hL : marks f .line ranges = .ok mL) (hP : marks f .patch ranges = .ok mP)
+    (hS : marks f .scope ranges = .ok mS) (hF : marks f .func ranges = .ok mF)
+    (envS : Env) (henv : mkEnv f .scope ranges = .ok envS)
+    (hc : cohOK envS (fileEvents (fun l => envS.changed.getD l false) f) = true) :
+    mF.count ≤ mS.count ∧ mS.count ≤ mP.count ∧ mP.count ≤ mL.count := by
+  obtain ⟨eL, sL, heL, hrL, hcL⟩ := marks_eq f .line ranges mL hL
+  obtain ⟨eP, sP, heP, hrP, hcP⟩ := marks_eq f .patch ranges mP hP
+  obtain ⟨eS, sS, heS, hrS, hcS⟩ := marks_eq f .scope ranges mS hS
+  obtain ⟨eF, sF, heF, hrF, hcF⟩ := marks_eq f .func ranges mF hF
+  rw [henv] at heS; cases heS
+  obtain ⟨fs, ch, tr, hfs, hch, rfl, htr⟩ := mkEnv_eq f .scope ranges _ henv
+  obtain ⟨fs1, ch1, tr1, hfs1, hch1, rfl, _⟩ := mkEnv_eq f .line ranges _ heL
+  obtain ⟨fs2, ch2, tr2, hfs2, hch2, rfl, htr2⟩ := mkEnv_eq f .patch ranges _ heP
+  obtain ⟨fs3, ch3, tr3, hfs3, hch3, rfl, _⟩ := mkEnv_eq f .func ranges _ heF
+  rw [hfs] at hfs1 hfs2 hfs3; cases hfs1; cases hfs2; cases hfs3
+  rw [hch] at hch1 hch2 hch3; cases hch1; cases hch2; cases hch3
+  have ht := htr (Or.inr rfl)
+  rw [htr2 (Or.inl rfl)] at ht
+  simp only [Option.some.injEq, Except.ok.injEq] at ht
+  subst ht
+  dsimp only at hrL hrP hrS hrF hc
+  rw [run_env_irrel .line (Or.inl rfl) _ _ ch _ fs tr1 tr2] at hrL
+  rw [run_env_irrel .func (Or.inr rfl) _ _ ch _ fs tr3 tr2] at hrF
+  have a := func_le_scope ⟨.scope, _, ch, _, fs, tr2⟩ _ sF sS hrF hrS hc
+  have b := scope_sub_patch ⟨.scope, _, ch, _, fs, tr2⟩ _ sS sP hrS hrP
+  have c := coarser_sub_line ⟨.scope, _, ch, _, fs, tr2⟩ .patch (by decide) _ sP sL hrP hrL
+  rw [hcL, hcP, hcS, hcF]
+  exact ⟨a.2.2, b.2.2, c.2.2⟩
+
+
 def exampleEnv : Env :=
   { gran := .line, n := 6, changed := #[false, false, false, true, false, true, false],
     comments := #[false, false, false, false, false, false, false], funcs := [(1, 7), (2, 6)], trees := [] }
@@ -288,5 +349,17 @@ def exampleEnv : Env :=
 /-- non-vacuity: the fold on a concrete two-event input ends in a state with one position -/
 example : (runEvents exampleEnv [.check 3, .check 4]).toOption.map (·.multi) = some [3] := by
   decide
+
+/-- non-vacuity of `func_le_scope`: function block (2, 9) with a child block (4, 7); changed
+    statements on lines 5, 6 (child block) and 8 (function block) are coherent, the scope run
+    places two calls, the func run one -/
+def exampleCohEnv : Env :=
+  { gran := .scope, n := 9, changed := #[false, false, false, false, false, true, true, false, true, false],
+    comments := #[false, false, false, false, false, false, false, false, false, false],
+    funcs := [(1, 10), (2, 9)], trees := [.mk 2 9 [.mk 4 7 []]] }
+
+example : cohOK exampleCohEnv [.check 3, .check 5, .check 6, .check 8] = true := by
+  simp [cohOK, activeLines, cohLine, selfKey, keyOf, keyFunc, skipOf, exampleCohEnv, searchTrees, TScope.search,
+    searchChildren, skipComments, Env.isComment, searchScopes, TScope.s, TScope.e, List.zipIdx]
 
 end GoatSpec.C09
